@@ -178,6 +178,14 @@ class Evaluator:
         g = self.P.fn.get(fr.get("r")) if fr.get("r") else None
         if g is not None and (g["p"] in self.inline or path in self.inline):
             return self.call(g, args)
+        # structural equality of field-less enum values / scalars (derive(PartialEq) and the default `ne`)
+        last = path.rsplit("::", 1)[-1]
+        if last in ("eq", "ne") and "PartialEq" in path and len(args) == 2:
+            a, b = args
+            simple = lambda v: isinstance(v, (int, bool)) or (isinstance(v, Adt) and not v.fields)
+            if simple(a) and simple(b):
+                same = (a == b) if not (isinstance(a, Adt) and isinstance(b, Adt)) else (a.adt == b.adt and a.variant == b.variant)
+                return int(same if last == "eq" else not same)
         raise Undecided("no summary for " + path)
 
     # ---- values ------------------------------------------------------------------------------
